@@ -269,80 +269,96 @@ Definition rprim (b : basic) (bs : bytes) : M (goval * bytes) :=
       bindM (liftR (rd_string bs)) (fun p => tick (2 * N.of_nat (length (fst p)), 0) (ret (VS (fst p), snd p)))
   end.
 
+(** the Reader's state: the remaining input, and [elems] = the number of slice elements this Reader has created
+    so far (readReflect only; []byte and strings are bounds-checked against the input instead).  [tot] below
+    is len(r.buf), fixed for the life of the Reader: the budget for [elems]. *)
+Definition rst := (bytes * N)%type.
+Definition with_el {A} (el : N) (m : M (A * bytes)) : M (A * rst) :=
+  bindM m (fun p => ret (fst p, (snd p, el))).
+
 (** the element loop of readReflect: [n] elements with reader [rd].  The fuel is the remaining input
     length + 1: every element of a type that is not [wire0] consumes at least one byte or fails. *)
-Fixpoint rd_elems (rd : bytes -> M (goval * bytes)) (fuel : nat) (n : N) (bs : bytes) : M (list goval * bytes) :=
-  if n =? 0 then ret ([], bs) else
+Fixpoint rd_elems (rd : rst -> M (goval * rst)) (fuel : nat) (n : N) (st : rst) : M (list goval * rst) :=
+  if n =? 0 then ret ([], st) else
   match fuel with
   | O => (OFuel, (0, 0))
-  | S f => bindM (rd bs) (fun p => tick (0, 1) (bindM (rd_elems rd f (n - 1) (snd p)) (fun q => ret (fst p :: fst q, snd q))))
+  | S f => bindM (rd st) (fun p => tick (0, 1) (bindM (rd_elems rd f (n - 1) (snd p)) (fun q => ret (fst p :: fst q, snd q))))
   end.
 
 (** Reader.Read(&x) for x of type [ty] (a non-nil pointer to an addressable variable).
     *[]byte: ReadBytesWithLength(4) — bounds check first, then one copy.
-    readReflect: slice = uint32 length, rejected with "unexpected EOF" when it exceeds the number of
-    remaining bytes, then reflect.MakeSlice(length), then the elements; array = temporary, uint32 length that must equal the array length, elements; struct =
-    temporary, the addressable exported fields in order (the others keep the zero value of the temporary);
-    everything else (named basic types, int, uint, pointers, interfaces, maps ...) is an error. *)
-Fixpoint read (ty : goty) (bs : bytes) {struct ty} : M (goval * bytes) :=
+    readReflect: slice = uint32 length n, rejected with "unexpected EOF" when n exceeds the number of
+    remaining bytes, or when elems + n exceeds len(r.buf) (elems is increased first); then
+    reflect.MakeSlice(n), then the elements; array = temporary, uint32 length that must equal the array
+    length, elements; struct = temporary, the addressable exported fields in order (the others keep the zero
+    value of the temporary); everything else (named basic types, int, uint, pointers, interfaces, maps ...)
+    is an error. *)
+Fixpoint read (tot : N) (ty : goty) (st : rst) {struct ty} : M (goval * rst) :=
+  let bs := fst st in let el := snd st in
   match ty with
-  | TBasic b => rprim b bs
+  | TBasic b => with_el el (rprim b bs)
   | TSlice named e =>
       if negb named && (match e with TBasic BU8 => true | _ => false end) then
-        bindM (liftR (rd_lp4 bs)) (fun p => tick (N.of_nat (length (fst p)), 0) (ret (VList (map VN (fst p)), snd p)))
+        with_el el (bindM (liftR (rd_lp4 bs)) (fun p => tick (N.of_nat (length (fst p)), 0) (ret (VList (map VN (fst p)), snd p))))
       else
         bindM (liftR (rd_u32 bs)) (fun p =>
           let n := fst p in let t := snd p in
           if N.of_nat (length t) <? n then failM EEOF                   (* int64(length) > RemainingSize(): before allocating *)
+          else if tot <? el + n then failM EEOF                         (* r.elems += length; r.elems > len(r.buf) *)
           else
           tick (n * tsize e, 0)                                         (* reflect.MakeSlice(type, n, n) *)
-            (if wire0 e then (OOk (VList (repeat (zero e) (N.to_nat n)), t), (0, n))     (* n iterations, no input consumed *)
-             else bindM (rd_elems (read e) (S (length t)) n t) (fun q => ret (VList (fst q), snd q))))
+            (if wire0 e then (OOk (VList (repeat (zero e) (N.to_nat n)), (t, el + n)), (0, n))     (* n iterations, no input consumed *)
+             else bindM (rd_elems (read tot e) (S (length t)) n (t, el + n)) (fun q => ret (VList (fst q), snd q))))
   | TArray n e =>
       tick (n * tsize e, 0)                                             (* reflect.New(array type) *)
         (bindM (liftR (rd_u32 bs)) (fun p =>
            let m := fst p in let t := snd p in
            if negb (m =? n) then failM EInvalid                         (* "array length mismatch" *)
-           else if wire0 e then (OOk (VList (repeat (zero e) (N.to_nat n)), t), (0, n))
-           else bindM (rd_elems (read e) (S (length t)) n t) (fun q => ret (VList (fst q), snd q))))
+           else if wire0 e then (OOk (VList (repeat (zero e) (N.to_nat n)), (t, el)), (0, n))
+           else bindM (rd_elems (read tot e) (S (length t)) n (t, el)) (fun q => ret (VList (fst q), snd q))))
   | TStruct fs =>
       tick (tsize ty, 0)                                                (* reflect.New(struct type) *)
-        (bindM ((fix rf (fs : list (bool * goty)) (bs : bytes) : M (list goval * bytes) :=
+        (bindM ((fix rf (fs : list (bool * goty)) (st : rst) : M (list goval * rst) :=
                    match fs with
-                   | [] => ret ([], bs)
+                   | [] => ret ([], st)
                    | (ex, t) :: r =>
-                       if ex then bindM (read t bs) (fun p => bindM (rf r (snd p)) (fun q => ret (fst p :: fst q, snd q)))
-                       else bindM (rf r bs) (fun q => ret (zero t :: fst q, snd q))
-                   end) fs bs)
+                       if ex then bindM (read tot t st) (fun p => bindM (rf r (snd p)) (fun q => ret (fst p :: fst q, snd q)))
+                       else bindM (rf r st) (fun q => ret (zero t :: fst q, snd q))
+                   end) fs st)
                (fun q => ret (VStruct (fst q), snd q)))
   | _ => failM EUnsupported
   end.
 
-(** ReadInto(&a, &b, ...) with targets of the given types *)
-Fixpoint read_into (tys : list goty) (bs : bytes) : M (list goval * bytes) :=
+(** a fresh Reader over [bs] *)
+Definition fresh (bs : bytes) : rst := (bs, 0).
+Definition read0 (ty : goty) (bs : bytes) : M (goval * rst) := read (N.of_nat (length bs)) ty (fresh bs).
+
+(** ReadInto(&a, &b, ...) with targets of the given types (one Reader: the state is threaded) *)
+Fixpoint read_into (tot : N) (tys : list goty) (st : rst) : M (list goval * rst) :=
   match tys with
-  | [] => ret ([], bs)
-  | t :: r => bindM (read t bs) (fun p => bindM (read_into r (snd p)) (fun q => ret (fst p :: fst q, snd q)))
+  | [] => ret ([], st)
+  | t :: r => bindM (read tot t st) (fun p => bindM (read_into tot r (snd p)) (fun q => ret (fst p :: fst q, snd q)))
   end.
+Definition read_into0 (tys : list goty) (bs : bytes) := read_into (N.of_nat (length bs)) tys (fresh bs).
 
 (** ** the caller's variables.  Read assigns [*ptr] only after the primitive / the whole slice / the
     temporary array or struct was read successfully. *)
-Definition read_var (old : goval) (ty : goty) (bs : bytes) : goval * out bytes :=
-  match fst (read ty bs) with
+Definition read_var (tot : N) (old : goval) (ty : goty) (st : rst) : goval * out rst :=
+  match fst (read tot ty st) with
   | OOk (v, t) => (v, OOk t)
   | OErr e => (old, OErr e) | OPanic w => (old, OPanic w) | OFuel => (old, OFuel) | OIll => (old, OIll)
   end.
-(** ReadInto over variables holding [olds]: returns the variables afterwards, the index of the failing
-    target if any, and the outcome *)
-Fixpoint read_into_vars (olds : list (goty * goval)) (bs : bytes) : list goval * out bytes :=
+(** ReadInto over variables holding [olds]: returns the variables afterwards and the outcome *)
+Fixpoint read_into_vars (tot : N) (olds : list (goty * goval)) (st : rst) : list goval * out rst :=
   match olds with
-  | [] => ([], OOk bs)
+  | [] => ([], OOk st)
   | (t, old) :: r =>
-      match read_var old t bs with
-      | (v, OOk rest) => let '(vs, o) := read_into_vars r rest in (v :: vs, o)
+      match read_var tot old t st with
+      | (v, OOk rest) => let '(vs, o) := read_into_vars tot r rest in (v :: vs, o)
       | (v, o) => (v :: map snd r, o)
       end
   end.
+Definition read_into_vars0 (olds : list (goty * goval)) (bs : bytes) := read_into_vars (N.of_nat (length bs)) olds (fresh bs).
 
 (** ** what Read is actually called with (C13): a nil pointer, a non-pointer, nil *)
 Inductive target : Type :=
@@ -351,7 +367,7 @@ Inductive target : Type :=
 | TgtNonPtr                   (* a non-pointer value, or untyped nil *).
 Definition read_call (tg : target) (bs : bytes) : out (goval * bytes) :=
   match tg with
-  | TgtVar ty => fst (read ty bs)
+  | TgtVar ty => match fst (read0 ty bs) with OOk (v, st) => OOk (v, fst st) | OErr e => OErr e | OPanic w => OPanic w | OFuel => OFuel | OIll => OIll end
   | TgtNilPtr _ => OErr EInvalid          (* Read: reflect.ValueOf(v) is a nil pointer: "must pass a non-nil pointer" *)
   | TgtNonPtr => OErr EInvalid            (* readReflect: not a pointer *)
   end.
@@ -392,6 +408,31 @@ Fixpoint fits (ty : goty) (v : goval) {struct v} : bool :=
       | _ => true
       end
   | _ => true
+  end.
+
+(** the number of slice elements Read creates for a value (what the Reader's [elems] budget counts): the
+    elements of every slice decoded by readReflect, at every depth; []byte (fast path) and strings count nothing *)
+Fixpoint cnt (ty : goty) (v : goval) {struct v} : N :=
+  match v with
+  | VList l =>
+      match ty with
+      | TSlice named e =>
+          if negb named && (match e with TBasic BU8 => true | _ => false end) then 0
+          else N.of_nat (length l) + (fix sum (l : list goval) : N := match l with [] => 0 | x :: r => cnt e x + sum r end) l
+      | TArray _ e => (fix sum (l : list goval) : N := match l with [] => 0 | x :: r => cnt e x + sum r end) l
+      | _ => 0
+      end
+  | VStruct l =>
+      match ty with
+      | TStruct fs =>
+          (fix sum (fs : list (bool * goty)) (l : list goval) {struct l} : N :=
+             match fs, l with
+             | (ex, t) :: fr, x :: r => (if ex then cnt t x else 0) + sum fr r
+             | _, _ => 0
+             end) fs l
+      | _ => 0
+      end
+  | _ => 0
   end.
 
 (** what a successful decode returns for an encoded value: nil slices become empty non-nil slices,
